@@ -50,6 +50,13 @@ pub struct Workload {
     /// >0: deterministic mode - background tasks off, the worker flushes (and runs
     /// compaction rounds) itself after every n-th transaction
     pub manual_flush_every: usize,
+    /// probability (percent) that, at the yield point between a commit's WAL write and its
+    /// memtable apply, the memtable is rotated (what a concurrent committer or the rotation path
+    /// can do at that instant)
+    pub hook_rotate_pct: u64,
+    /// manual mode only: probability that the oldest immutable memtable is flushed at the yield
+    /// point after a commit was published
+    pub hook_flush_pct: u64,
 }
 
 impl Workload {
@@ -57,7 +64,7 @@ impl Workload {
         json!({"txns": self.txns, "committers": self.committers, "nkeys": self.nkeys, "max_value": self.max_value,
                "immediate_pct": self.immediate_pct, "sync_every": self.sync_every, "close_at_end": self.close_at_end,
                "delete_pct": self.delete_pct, "first_txn": self.first_txn, "big_batch_pct": self.big_batch_pct,
-               "manual_flush_every": self.manual_flush_every})
+               "manual_flush_every": self.manual_flush_every, "hook_rotate_pct": self.hook_rotate_pct, "hook_flush_pct": self.hook_flush_pct})
     }
     pub fn from_json(j: &J) -> Workload {
         let u = |k: &str| j[k].as_u64().unwrap_or(0);
@@ -73,6 +80,8 @@ impl Workload {
             first_txn: u("first_txn").max(1),
             big_batch_pct: u("big_batch_pct"),
             manual_flush_every: u("manual_flush_every") as usize,
+            hook_rotate_pct: u("hook_rotate_pct"),
+            hook_flush_pct: u("hook_flush_pct"),
         }
     }
 }
@@ -186,6 +195,55 @@ pub fn worker_main(args: &[String]) -> i32 {
         };
         mark("P open.end");
         let tree = std::sync::Arc::new(tree);
+        if w.hook_rotate_pct > 0 || w.hook_flush_pct > 0 {
+            thread_local! { static IN: std::cell::Cell<bool> = const { std::cell::Cell::new(false) }; }
+            let t = tree.clone();
+            let state = std::sync::atomic::AtomicU64::new(seed | 1);
+            let (rp, fp, manual) = (w.hook_rotate_pct, w.hook_flush_pct, w.manual_flush_every > 0);
+            let (mem_stall, l0_stall) = (cfg.memtable_stall, cfg.l0_stall.max(cfg.l0_max_files));
+            surrealkv::verif::set_point_hook(Some(std::sync::Arc::new(move |name: &'static str| {
+                if name != "commit.after_wal" && name != "commit.after_publish" {
+                    return;
+                }
+                if IN.with(|f| f.replace(true)) {
+                    return;
+                }
+                let mut x = state.load(std::sync::atomic::Ordering::Relaxed);
+                x ^= x << 13;
+                x ^= x >> 7;
+                x ^= x << 17;
+                state.store(x, std::sync::atomic::Ordering::Relaxed);
+                // in manual mode nothing else flushes or compacts: never let the injected
+                // rotations / flushes push the store into a write stall it cannot leave
+                let relieve = |t: &Tree| {
+                    if let Ok(l) = t.verif_layout() {
+                        if l.immutables + 2 >= mem_stall {
+                            let _ = t.verif_flush_one();
+                        }
+                        if l.tables.iter().filter(|x| x.level == 0).count() + 2 >= l0_stall {
+                            for _ in 0..3 {
+                                let _ = t.verif_compact_once();
+                            }
+                        }
+                    }
+                };
+                if name == "commit.after_wal" && x % 100 < rp {
+                    mark("P hook.rotate");
+                    if manual {
+                        relieve(&t);
+                    }
+                    let _ = t.verif_rotate();
+                    if !manual {
+                        t.verif_wake_background();
+                    }
+                } else if name == "commit.after_publish" && manual && (x >> 8) % 100 < fp {
+                    mark("P hook.flush_one");
+                    let _ = t.verif_flush_one();
+                    relieve(&t);
+                }
+                IN.with(|f| f.set(false));
+            })));
+        }
         let per = (w.txns + w.committers - 1) / w.committers;
         let mut handles = vec![];
         for c in 0..w.committers {
